@@ -698,6 +698,14 @@ impl Env {
         Ok(())
     }
 
+    pub fn pending_len(&self) -> usize {
+        self.pending.len()
+    }
+    /// largest max_doc among the committed segments (a segment larger than the flush-every-N cut comes from a merge)
+    pub fn largest_committed_segment(&self) -> Result<u32, Failure> {
+        let meta = self.index.load_metas().or_fail("load_metas_failed")?;
+        Ok(meta.segments.iter().map(|m| m.max_doc()).max().unwrap_or(0))
+    }
     fn after_writer_gone(&mut self) -> CaseResult {
         self.stats.reopen += 1;
         self.pending = self.committed.clone();
